@@ -109,7 +109,7 @@ def run_deductive(spec, res, tier):
             continue
         main = [o for o in obls if o.expect == 'proved']
         aux = [o for o in obls if o.expect != 'proved']
-        r1 = solve.discharge(main, timeout_ms=timeout)
+        r1 = solve.discharge(main, timeout_ms=timeout, cvc5_timeout_ms=max(60000, timeout))
         r2 = solve.discharge(aux, timeout_ms=3000, use_cvc5=False)
         # retry unknowns once with a longer budget (load on the box must not flip verdicts)
         retry = [o for o in main if r1[o.name]['verdict'] == 'unknown' and (res.pid, key_of(o.name)) not in KNOWN_OBL]
@@ -122,7 +122,7 @@ def run_deductive(spec, res, tier):
                     rr.append(o)
             retry = rr[:6]
         if retry:
-            r1b = solve.discharge(retry, timeout_ms=timeout * 3)
+            r1b = solve.discharge(retry, timeout_ms=timeout * 3, cvc5_timeout_ms=max(180000, timeout * 3))
             for o in retry:
                 r1b[o.name]['ms'] += r1[o.name]['ms']
                 r1[o.name] = r1b[o.name]
